@@ -228,6 +228,12 @@ class Env:
         self.in_seen_eof = False
         self.never_ended = False
         self.prereleased = set()
+        self.kbd_after_reap = False
+        self.waiting = {"out": False, "err": False}
+        self.joining = None          # worker the main thread is currently joining
+        self.joins = []              # (who, timeout) of every join call
+        self.call_done = False
+        self.certain_hang = None
         self.after_exit = False
 
     # ---- helpers (call with cv held) -------------------------------------
@@ -265,12 +271,17 @@ class Env:
                 if self.avail[who]:
                     idx, data = self.avail[who].popleft()
                     self.consumed.append(idx)
+                    self.waiting[who] = False
                     self.cv.notify_all()
                     return data
                 if self.drained and who not in self.never_eof:
+                    self.waiting[who] = False
                     return b""
                 if time.time() > deadline:
                     raise HarnessAbort()
+                if not self.waiting[who]:
+                    self.waiting[who] = True
+                    self.cv.notify_all()
                 self.cv.wait(0.05)
 
     def in_ready(self):
@@ -332,6 +343,28 @@ class Env:
             self.cv.wait(0.02)
         return True
 
+    def _quiescent(self, polls0):
+        """the main thread has reacted to everything delivered so far"""
+        if self.call_done or self.run_done or self.abort:
+            return True
+        if not self.left_wait:
+            return self.polls > polls0            # a full wait-loop iteration since
+        k = self.joining
+        if k in ("out", "err"):
+            t = self._worker(k)
+            return t is not None and t.is_alive() and self.waiting[k] and not self.avail[k] \
+                and k not in self.exc_pending
+        return False                              # between joins / joining stdin: transient
+
+    def _settle(self):
+        p0 = self.polls
+        deadline = time.time() + Limits.step
+        while not self._quiescent(p0):
+            if time.time() > deadline:
+                return False
+            self.cv.wait(0.002)
+        return True
+
     def drive(self):
         with self.cv:
             # nothing happens before the workers exist
@@ -389,6 +422,15 @@ class Env:
                     self.cv.notify_all()
                     ok = self._wait(lambda: self.left_wait)
                     self.consumed.append(idx)
+                elif kind == "exit_kbd":
+                    if self.exited is None:
+                        self.exited = ev[1]
+                    if not self.left_wait:
+                        self.kbd_after_reap = True
+                    self.after_exit = True
+                    self.cv.notify_all()
+                    ok = self._wait(lambda: self.left_wait)
+                    self.consumed.append(idx)
                 elif kind == "timer":
                     t = self.timer
                     if t is not None:
@@ -420,22 +462,38 @@ class Env:
                     self.kbd_pending.append(idx)
                     self.cv.notify_all()
                     ok = self._wait(lambda: idx in self.consumed or self.left_wait)
+                if ok and not self._settle():
+                    self.hang = self.hang or ("after event %d %r the main thread neither waits nor finishes" % (idx, ev))
+                    break
                 if not ok:
                     self.hang = self.hang or ("event %d %r not consumed" % (idx, ev))
                     break
             self.drained = True
             self.cv.notify_all()
-            if self.exited is None and not self.abort:
-                # nothing in the script ever ends the process: the run can only end through the
-                # dead-worker escape (<= 1 s join timeout); otherwise stop the scenario here
-                deadline = time.time() + 2.5
-                while not (self.run_done or self.abort) and time.time() < deadline:
-                    self.cv.wait(0.02)
-                if not (self.run_done or self.abort):
-                    self.hang = self.hang or "the process never ends in this script and run() keeps waiting"
+            # Decide structurally whether the run can still end: waiting for wall-clock
+            # time is only needed for the 1 s join timeouts.
+            deadline = time.time() + Limits.run
+            while not (self.call_done or self.run_done or self.abort):
+                dead = any(th.ident is not None and th.is_dead for th in (self.threads or {}).values())
+                if not self.left_wait and self.exited is None and not dead and self._settled_in_wait():
+                    self.certain_hang = "the process never ends in this script and no worker died: run() keeps waiting"
+                elif self.left_wait and self.joining in ("out", "err") and self.joins \
+                        and self.joins[-1] == (self.joining, None) and self.joining in self.never_eof \
+                        and self.waiting[self.joining] and not self.avail[self.joining]:
+                    self.certain_hang = ("join(%s worker) without timeout, but that reader never gets EOF "
+                                         "(pipe held open)" % self.joining)
+                if self.certain_hang or time.time() > deadline:
+                    self.hang = self.hang or self.certain_hang or "run() still going %.1fs after the script" % Limits.run
                     self.never_ended = True
                     self.abort = True
                     self.cv.notify_all()
+                    break
+                self.cv.wait(0.005)
+
+    def _settled_in_wait(self):
+        p0 = self.polls
+        self.cv.wait(0.01)
+        return self.polls > p0 and not self.left_wait
 
 
 def make_runner_class():
@@ -472,10 +530,39 @@ def make_runner_class():
         def create_io_threads(self):
             r = super().create_io_threads()
             e = self._verif_env
+            names = {"handle_stdout": "out", "handle_stderr": "err", "handle_stdin": "in"}
+            for target, th in r[0].items():
+                who = names[target.__name__]
+
+                def join(timeout=None, _th=th, _who=who, _orig=th.join):
+                    with e.cv:
+                        e.joining = _who
+                        e.joins.append((_who, timeout))
+                        e.cv.notify_all()
+                    try:
+                        return _orig(timeout)
+                    finally:
+                        with e.cv:
+                            e.joining = None
+                            e.cv.notify_all()
+                th.join = join
             with e.cv:
                 e.threads = r[0]
                 e.cv.notify_all()
             return r
+
+        @property
+        def has_dead_threads(self):
+            v = R.Runner.has_dead_threads.fget(self)
+            e = self._verif_env
+            with e.cv:
+                fire = e.kbd_after_reap and e.exit_observed
+                if fire:
+                    e.kbd_after_reap = False
+            if fire:
+                # a signal delivered right after the poll that saw (reaped) the exit
+                raise KeyboardInterrupt()
+            return v
 
         def read_proc_stdout(self, num_bytes):
             return self._verif_env.read_proc("out")
@@ -565,7 +652,7 @@ def run_scripted(case):
                 "not_run": True, "elapsed": 0.0, "kills": 0, "kills_after_exit": 0, "stop_calls": 0,
                 "program_finished": False, "workers": [], "alive_after": [], "timer": None,
                 "stdin_writes": {"in": [], "out": [], "err": [], "main": []}, "stdin_closes": 0, "out_stream": "", "err_stream": "",
-                "out_submits": [], "err_submits": [], "consumed": [], "exit_observed": False,
+                "out_submits": [], "err_submits": [], "consumed": [], "joins": [], "exit_observed": False,
                 "started": False, "outcome": "HANG", "stdout": None, "stderr": None, "exited": None}
     env = Env(case.get("events", []), never_eof=case.get("never_eof", ()),
               reap_echild=bool(case.get("pty")) and bool(case.get("reap_echild", True)))
@@ -610,6 +697,10 @@ def run_scripted(case):
             box["result"] = r
         except BaseException as e:  # noqa
             box["exc"] = e
+        finally:
+            with env.cv:
+                env.call_done = True
+                env.cv.notify_all()
 
     saved = sys.stdout, sys.stderr
     sys.stdout, sys.stderr = (out_rec if not case.get("out_given") else saved[0]), \
@@ -635,11 +726,12 @@ def run_scripted(case):
     workers = dict((tg.__name__, th) for tg, th in (getattr(runner, "threads", None) or {}).items())
     alive_after = sorted(n for n, th in workers.items() if th.is_alive())
     timer = env.timer
-    if hung or env.hang:
+    if (hung or env.hang) and not env.certain_hang:
         Limits.note_hang()
     obs = {
         "hang": bool(hung or env.hang),
         "hang_what": env.hang,
+        "certain_hang": env.certain_hang,
         "elapsed": elapsed,
         "kills": env.kills,
         "kills_after_exit": env.kills_after_exit,
@@ -649,7 +741,7 @@ def run_scripted(case):
         "alive_after": alive_after,
         "timer": None if timer is None else
         {"started": timer.started, "cancelled": timer.cancelled, "fired": timer.fired,
-         "armed_after": timer.is_alive()},
+         "armed_after": timer.is_alive(), "interval": timer.interval},
         "stdin_writes": {w: [list(b) for ww, b in env.stdin_writes if ww == w]
                          for w in ("in", "out", "err", "main")},
         "stdin_closes": env.stdin_closes,
@@ -658,6 +750,7 @@ def run_scripted(case):
         "out_submits": list(watcher.seen.get("handle_stdout", [])),
         "err_submits": list(watcher.seen.get("handle_stderr", [])),
         "consumed": list(env.consumed),
+        "joins": [[w, tm] for w, tm in env.joins],
         "exit_observed": env.exit_observed,
         "started": env.started,
     }
